@@ -401,6 +401,13 @@ fn c03_histories(c: &WigCase, depth: usize, cached: bool, bytes: &[u8], out: &mu
             }
             out.count("history_zoom_operations", fresh_zoom.len() as u64);
         }
+        // operations that leave the reader in the middle of something: an iterator advanced by one
+        // item and dropped (chromosome index + 2000), and a query that is refused (absent
+        // chromosome, 3000); the queries after them must answer as on a fresh reader
+        for (ci, ch) in c.chroms.iter().enumerate() {
+            alpha.push((ci + 2000, 0, ch.len));
+        }
+        alpha.push((3000, 0, 5));
         out.count("history_alphabet_size", alpha.len() as u64);
         // enumerate all sequences of length exactly `depth` (prefixes cover shorter ones)
         let n = alpha.len();
@@ -418,6 +425,21 @@ fn c03_histories(c: &WigCase, depth: usize, cached: bool, bytes: &[u8], out: &mu
             macro_rules! run {
                 ($rd:expr) => {{
                     for (ci, s, e) in &seq {
+                        if *ci >= 3000 {
+                            if $rd.get_interval("no_such_chromosome", *s, *e).is_ok() {
+                                out.fail("absent_chromosome_answered", &tags, format!("history {:?}", seq));
+                            }
+                            out.count("history_refused_operations", 1);
+                            continue;
+                        }
+                        if *ci >= 2000 {
+                            let ch = &c.chroms[*ci - 2000];
+                            if let Ok(mut it) = $rd.get_interval(&ch.name, *s, *e) {
+                                let _ = it.next();
+                            }
+                            out.count("history_abandoned_iterators", 1);
+                            continue;
+                        }
                         if *ci >= 1000 {
                             let ch = &c.chroms[*ci - 1000];
                             let lv = levels[0];
@@ -1222,6 +1244,10 @@ fn c04_histories(c: &BedCase, depth: usize, cached: bool, bytes: &[u8], out: &mu
             }
             out.count("history_zoom_operations", fresh_zoom.len() as u64);
         }
+        for (ci, ch) in c.chroms.iter().enumerate() {
+            alpha.push((ci + 2000, 0, ch.len.max(1)));
+        }
+        alpha.push((3000, 0, 5));
         let n = alpha.len();
         let total = n.pow(depth as u32);
         let mut states = std::collections::HashSet::new();
@@ -1236,6 +1262,21 @@ fn c04_histories(c: &BedCase, depth: usize, cached: bool, bytes: &[u8], out: &mu
             macro_rules! run {
                 ($rd:expr) => {{
                     for (ci, s, e) in &seq {
+                        if *ci >= 3000 {
+                            if $rd.get_interval("no_such_chromosome", *s, *e).is_ok() {
+                                out.fail("absent_chromosome_answered", &tags, format!("history {:?}", seq));
+                            }
+                            out.count("history_refused_operations", 1);
+                            continue;
+                        }
+                        if *ci >= 2000 {
+                            let ch = &c.chroms[*ci - 2000];
+                            if let Ok(mut it) = $rd.get_interval(&ch.name, *s, *e) {
+                                let _ = it.next();
+                            }
+                            out.count("history_abandoned_iterators", 1);
+                            continue;
+                        }
                         if *ci >= 1000 {
                             let ch = &c.chroms[*ci - 1000];
                             let lv = levels[0];
